@@ -193,7 +193,8 @@ func (f *Frame) execInstr(in ssa.Instruction, reach string, st *State) {
 		}
 		f.top.closures[n] = cv
 	case *ssa.MakeInterface:
-		f.define(x, f.makeIface(x.X.Type(), f.val(x.X)))
+		bx := f.define(x, f.makeIface(x.X.Type(), f.val(x.X)))
+		f.bridgeGetters(x.X.Type(), f.val(x.X), bx, reach, st)
 	case *ssa.MakeMap:
 		p := f.newObj(st, "map")
 		mt := x.Type().Underlying().(*types.Map)
@@ -271,7 +272,7 @@ func (f *Frame) execInstr(in ssa.Instruction, reach string, st *State) {
 				}
 			}
 		}
-		f.storeFrame(x.Pos(), f.srcTextOr(x.Pos(), "store"), "(pobj "+addr+")", reach)
+		f.storeFrameAt(x.Pos(), f.srcTextOr(x.Pos(), "store"), "(pobj "+addr+")", addr, "", reach)
 		f.store(st, addr, x.Val.Type(), f.val(x.Val))
 	case *ssa.TypeAssert:
 		f.typeAssert(x, reach, st)
